@@ -578,7 +578,10 @@ def main(ctx):
         "property's layouts, model and code agree (family malformed-repeated-label)",
         "save_to_texts that raises on a 0-d / 3-d attribute leaves the earlier files and an empty file behind (modelled, agrees)"]
 
-    ctx.notes["remark_probes"] = remark_probes()
+    try:
+        ctx.notes["remark_probes"] = remark_probes()
+    except Exception as e:                      # noqa  (informational probes only: never a verdict, never a crash)
+        ctx.notes["remark_probes"] = {"raised": f"{type(e).__name__}: {str(e)[:160]}"}
     # ---- decide
     reported = {}
     for i, fl in enumerate(fails_by_session):
